@@ -5,7 +5,7 @@ use crate::program::{self, build_prover, build_verifier, take_ctx, Dev, Env, Pro
 use crate::proofparts::Parts;
 use crate::props::common::*;
 use crate::recorder::{record_guarded, Event};
-use crate::schedule::{expected_steps_ordered, main_events, run_monitor};
+use crate::schedule::{expected_steps_ordered, main_events, run_monitor, run_monitor_prefix};
 use crate::with_curve;
 use ark_bulletproofs::r1cs::R1CSProof;
 use merlin::Transcript;
@@ -150,6 +150,55 @@ pub fn run_prog<G: Cv>(env: &Env<G>, prog: &Program, seed: u64) -> Out {
     out
 }
 
+/// The verifier absorbs what it *received*: for a proof with one element replaced, the
+/// verifier's transcript must carry the replaced element's encoding at that element's step (up
+/// to wherever the verifier stops).
+pub fn run_deviated<G: Cv>(env: &Env<G>, prog: &Program, seed: u64) -> (u64, Vec<(String, String)>) {
+    use crate::devspace::{apply, PDev, Slot};
+    let mut bad = vec![];
+    let pr = program::prove::<G>(prog, &env.pc, &env.bp, seed, "c06-dev", Dev::None);
+    let Ok(bytes) = pr.proof else { return (0, bad) };
+    let Some(parts) = Parts::<G>::parse(&bytes) else { return (0, bad) };
+    let mut devs: Vec<PDev> = vec![];
+    for i in 0..11 {
+        devs.push(PDev::PtAddB(Slot::Pt(i)));
+    }
+    for j in 0..parts.l.len() {
+        devs.push(PDev::PtAddB(Slot::L(j)));
+        devs.push(PDev::PtAddBb(Slot::R(j)));
+    }
+    for i in 0..3 {
+        devs.push(PDev::ScAdd(Slot::Sc(i), 0));
+    }
+    let mut n = 0;
+    for d in devs {
+        let p2 = apply::<G>(&parts, &d, &env.pc, seed);
+        let Ok(proof) = p2.to_proof() else { continue };
+        let (res, ev) = record_guarded(|| {
+            let t = Transcript::new(program::LABEL);
+            let (verifier, ctx) = build_verifier::<G, Transcript>(prog, &env.pc, t, seed, Dev::None, &pr.commitments);
+            let r = verifier.verify(&proof, &env.pc, &env.bp).is_ok();
+            let order = take_ctx(ctx).closure_order;
+            (r, order)
+        });
+        let (accepted, order) = match res {
+            Ok(x) => x,
+            Err(m) => {
+                bad.push((format!("verify returns ({})", d.name()), format!("panicked: {}", m)));
+                continue;
+            }
+        };
+        n += 1;
+        let steps = expected_steps_ordered::<G>(prog, &pr.commitments, &p2, &order);
+        let (_, vm) = main_events(&ev);
+        if let Err(e) = run_monitor_prefix(&steps, &vm) {
+            bad.push((format!("the verifier absorbs the proof elements it received ({})", d.name()), e));
+        }
+        let _ = accepted;
+    }
+    (n, bad)
+}
+
 pub fn main(o: &Opts) -> i32 {
     let mut rep = Report::new("C06", o.tier.name(), o.seed, "model_checking");
     let mut progs: Vec<Program> = match o.tier {
@@ -168,7 +217,8 @@ pub fn main(o: &Opts) -> i32 {
         let v: Value = serde_json::from_str(&std::fs::read_to_string(path).unwrap()).unwrap();
         progs.retain(|p| Some(p.name().as_str()) == v["case"]["program"].as_str());
     }
-    rep.bounds = json!({"programs": progs.len(), "space": if o.tier == Tier::Quick { "P(3,1) (second closures for phase-1 length <= 1) + S(5)" } else { "P(4,1) + P(2,2) + S(9)" }});
+    rep.bounds = json!({"programs": progs.len(), "space": if o.tier == Tier::Quick { "P(3,1) (second closures for phase-1 length <= 1) + S(5)" } else { "P(4,1) + P(2,2) + S(9)" },
+        "deviated_proofs": "P(1,1) + small size family + extras: each point slot += B (R slots += B_blinding), each absorbed scalar += 1; the verifier's recorded transcript must carry the replaced element"});
     rep.curves = CURVES.iter().map(|s| s.to_string()).collect();
     rep.rule = "for every program an honest prover run and verifier run are recorded at the Merlin API; a monitor automaton (the protocol's fixed order with expected payloads computed from the program, the commitments and the decoded proof) consumes the main-transcript events of each role; then role synchrony, fork discipline and the follow-up challenge of the returned transcripts are checked".into();
     let start = rep.start;
@@ -203,6 +253,38 @@ pub fn main(o: &Opts) -> i32 {
                         let case = json!({"curve": curve, "program": p.name(), "check": e});
                         rep.count("violation", 1);
                         rep.violation(Violation { key: case.clone(), case, expected: e, observed: ob, note: "transcript discipline".into() });
+                    }
+                }
+            }
+        }
+    }
+    // deviated proofs: the verifier's transcript carries what it received
+    {
+        let mut dprogs: Vec<Program> = program_space2(1, 1, 0);
+        dprogs.extend(size_family(if o.tier == Tier::Quick { 2 } else { 4 }).into_iter().map(|x| x.3));
+        dprogs.extend(extra_programs());
+        if let Some(path) = &o.replay {
+            let v: Value = serde_json::from_str(&std::fs::read_to_string(path).unwrap()).unwrap();
+            dprogs.retain(|p| Some(p.name().as_str()) == v["case"]["program"].as_str());
+        }
+        for (ci, curve) in CURVES.iter().enumerate() {
+            let sub: Vec<&Program> = dprogs.iter().enumerate().filter(|(i, _)| dprogs.len() < 5 || o.tier == Tier::Thorough || i % 3 == ci).map(|(_, p)| p).collect();
+            let res: Vec<Option<(u64, Vec<(String, String)>)>> = with_curve!(*curve, G => {
+                let env = Env::<G>::new(64);
+                par_run(&sub, start, o.budget, |_, p| run_deviated::<G>(&env, p, o.seed))
+            });
+            for (p, r) in sub.iter().zip(res) {
+                match r {
+                    None => skipped += 1,
+                    Some((n, bad)) => {
+                        rep.evaluations += n;
+                        rep.count("verifier runs on proofs with one element replaced", n);
+                        validated += n;
+                        for (e, ob) in bad {
+                            let case = json!({"curve": curve, "program": p.name(), "check": e});
+                            rep.count("violation", 1);
+                            rep.violation(Violation { key: case.clone(), case, expected: e, observed: ob, note: "transcript discipline".into() });
+                        }
                     }
                 }
             }
